@@ -762,6 +762,16 @@ class PX:
                 val = self.read_local(st, fr, 0)
                 if fr.wrap is not None:
                     val = fr.wrap(val)
+                    if isinstance(val, tuple) and val and val[0] == "optif":
+                        # Some(x) if the condition holds, None otherwise: split the path on the condition
+                        s2 = st.copy()
+                        if s2.cons.set_known(val[1], 0):
+                            s2.frames[-1].wrap = (lambda _v: agg("adt", "std::option::Option", "None", ()))
+                            work.append(s2)
+                        if not st.cons.set_known(val[1], 1):
+                            self._end("infeasible", st)
+                            return
+                        val = val[3] if len(val) > 3 else agg("adt", "std::option::Option", "Some", (("0", val[2]),))
                 if len(st.frames) == 1:
                     self._end("return", st, value=val)
                     return
